@@ -546,6 +546,57 @@ Lemma nst_balance_change_uncached_not_atomic :
   tr_of (run nst_balance_change nst_change_bad_state) = ["oracle/nst_staker"; "assets/staker_asset"]%string.
 Proof. split; reflexivity. Qed.
 
+(* ---- transactions that also write process memory ---- *)
+Lemma via_tx_mem_only_memory {S} (mem : string -> bool) (p : script S) s :
+  failed (res_of (via_tx_mem mem p s)) = true -> forallb mem (tr_of (via_tx_mem mem p s)) = true.
+Proof.
+  unfold via_tx_mem. destruct (failed (res_of (run p s))) eqn:F; [|intro H; rewrite F in H; discriminate].
+  intros _. cbn [tr_of snd]. induction (tr_of (run p s)) as [|c r IH]; simpl; [reflexivity|].
+  destruct (mem c) eqn:E; simpl; [rewrite E; exact IH|exact IH].
+Qed.
+
+(* when every write of the script is a memory write the wrapper IS the precompile wrapper: the characterisation
+   theorem applies to the memory component of a transaction *)
+Lemma via_tx_mem_all_memory {S} (p : script S) s :
+  via_tx_mem (fun _ => true) p s = via_precompile p s.
+Proof.
+  unfold via_tx_mem, via_precompile. destruct (failed (res_of (run p s))); [|reflexivity].
+  destruct (run p s) as [[st r] tr]. cbn. f_equal. induction tr as [|c l IH]; simpl; [reflexivity|]. rewrite IH. reflexivity.
+Qed.
+
+(* [counted message, then a failing message]: the tx fails, the store cache is dropped, the aggregator memory keeps
+   the first message's report *)
+Definition oracle_tx_bad_state : facts := [("ante.ok", 1); ("n", 2); ("fail.idx", 1)]%string.
+Lemma oracle_tx_memory_not_rolled_back :
+  failed (res_of (exec MTxMem oracle_tx oracle_tx_bad_state)) = true /\
+  tr_of (exec MTxMem oracle_tx oracle_tx_bad_state) = ["oracle-mem"%string].
+Proof. split; reflexivity. Qed.
+
+(* a single message that is "ignored" has itself written the memory before it failed *)
+Definition oracle_tx_ignored_state : facts := [("ante.ok", 1); ("n", 1); ("fail.idx", 0); ("fail.ignored", 1)]%string.
+Lemma oracle_tx_ignored_message_leaves_trace :
+  failed (res_of (exec MTxMem oracle_tx oracle_tx_ignored_state)) = true /\
+  tr_of (exec MTxMem oracle_tx oracle_tx_ignored_state) = ["oracle-mem"%string].
+Proof. split; reflexivity. Qed.
+
+(* a tx rejected by the ante handler or failing at its FIRST message (not of the "ignored" kind) leaves the memory alone *)
+Lemma oracle_tx_first_message s : fget "fail.idx" s <= 0 -> fget "fail.ignored" s = 0 ->
+  failed (res_of (exec MTxMem oracle_tx s)) = true -> tr_of (exec MTxMem oracle_tx s) = [].
+Proof.
+  intros H Hi. cbv [exec via_tx_mem oracle_tx oracle_msg app is1 run].
+  repeat (cbn [run_from res_of tr_of failed fst snd app filter]; try brk; try reflexivity; try discriminate).
+  all: repeat match goal with
+       | H : negb _ = true |- _ => apply negb_true_iff in H
+       | H : negb _ = false |- _ => apply negb_false_iff in H
+       | H : _ && _ = true |- _ => apply andb_prop in H; destruct H
+       | H : _ && _ = false |- _ => apply andb_false_iff in H; destruct H
+       | H : (_ =? _) = true |- _ => apply Z.eqb_eq in H
+       | H : (_ =? _) = false |- _ => apply Z.eqb_neq in H
+       | H : (_ <? _) = true |- _ => apply Z.ltb_lt in H
+       | H : (_ <? _) = false |- _ => apply Z.ltb_ge in H
+       end; try lia.
+Qed.
+
 (* ------------------------------------------------------------------------------------------ *)
 (* all entry points                                                                            *)
 (* ------------------------------------------------------------------------------------------ *)
@@ -553,6 +604,7 @@ Definition inv_of (k : op_kind) : facts -> bool :=
   match k with
   | Delegate => inv_delegate
   | Undelegate => inv_undelegate
+  | OracleTx => fun s => (fget "fail.idx" s <=? 0) && (fget "fail.ignored" s =? 0)
   | _ => fun _ => true
   end.
 
@@ -572,6 +624,9 @@ Proof.
   - exact (avs_opt_in_atomic s).
   - exact (avs_opt_out_atomic s).
   - exact (avs_create_task_atomic s).
+  - (* every write of oracle_tx is the identity on the facts: the facts never change; what matters is the trace *)
+    unfold atomic_at. intros _. cbv [exec via_tx_mem oracle_tx oracle_msg app is1 run].
+    repeat (cbn [run_from res_of tr_of st_of failed fst snd app filter]; try brk; try reflexivity).
 Qed.
 
 (* what check_case / monitor_case compare, proved of the model: a failing call leaves an empty write trace *)
